@@ -56,6 +56,21 @@ def configure_agreement(sim, conf, is_client):
 
 def configure_bad(sim, conf, is_client):
     c = sim.ch.stream("c03")
+    if not hasattr(sim, "bad_mode"):
+        sim.bad_mode = c.choose(3)  # drawn once per run (the server configuration is built first)
+    if sim.bad_mode == 0:
+        # a perfectly good certificate (valid for localhost / 127.0.0.1) but the client asked for
+        # another name, as a DNS name or as an IPv4 / IPv6 literal
+        names = ("192.0.2.99", "10.9.8.7", "::1", "2001:db8::7", "localhost.example", "LOCALHOST.evil.example")
+        if not hasattr(sim, "bad_name"):
+            sim.bad_name = names[c.choose(len(names))]
+        sim.bad_cert = "a valid certificate for localhost/127.0.0.1 while the client asked for %s" % sim.bad_name
+        if is_client:
+            conf.server_name = sim.bad_name
+        else:
+            cert, chain, key = fixtures.cert_chain("server_ed25519")
+            conf.certificate, conf.certificate_chain, conf.private_key = cert, chain, key
+        return
     if not is_client:
         name = fixtures.BAD_CERTS[c.choose(len(fixtures.BAD_CERTS))]
         sim.bad_cert = name
